@@ -207,6 +207,12 @@ func c03FromCTE(c *Check, label string, text []byte, cfg *configuration.Configur
 	}
 	want := normStream(first.Evs, normOpts{DropPadding: true, DropComments: true, TagBigFloat: true})
 	wit := map[string]interface{}{"kind": "cte-to-cbe", "cte": string(text), "events": evsString(first.Evs)}
+	if !utf8.Valid(text) {
+		// the data of a text document is what its bytes say: a malformed sequence is not U+FFFD
+		wit["problem"] = "not UTF-8"
+		c.Violation(fmt.Sprintf("%s: the CTE decoder (with rules) accepts %q, which is not valid UTF-8; the events it reports (%s) are not what the document holds, so no conversion can carry the same data", label, text, evsString(first.Evs)), wit)
+		return true
+	}
 	fail := func(format string, args ...interface{}) bool {
 		msg := fmt.Sprintf(format, args...)
 		wit["problem"] = msg
@@ -286,7 +292,10 @@ func mutateText(doc []byte, rnd *rand.Rand) []byte {
 	for k := 1 + rnd.Intn(2); k > 0; k-- {
 		i := 3 + rnd.Intn(len(out)-3)
 		r := repl[rnd.Intn(len(repl))]
-		switch rnd.Intn(3) {
+		switch rnd.Intn(4) {
+		case 3: // a raw byte: stray continuation bytes, truncated and overlong sequences, surrogates
+			raw := [][]byte{{0xff}, {0x80}, {0xc3}, {0xc0, 0xaf}, {0xe2, 0x82}, {0xed, 0xa0, 0x80}, {0xf4, 0x90, 0x80, 0x80}}[rnd.Intn(7)]
+			out = append(out[:i], append(append([]byte{}, raw...), out[i:]...)...)
 		case 0: // replace one byte
 			out = append(out[:i], append([]byte(r), out[i+1:]...)...)
 		case 1: // insert
